@@ -824,12 +824,75 @@ def thresh_data(rng, n, dim):
     return rows
 
 
+# ---- prop: a structural / normalising operation on the whole object = the same operation element by element -------------
+ELEMENTWISE_OPS = {"Quaternion": ["unit", "inv", "neg", "conj"], "Vector3d": ["unit", "neg"], "Miller": ["unit", "neg"],
+                   "Rotation": ["unit", "inv", "neg"], "Orientation": ["unit", "inv", "neg"],
+                   "Misorientation": ["unit", "inv", "neg"]}
+
+
+def _apply_unary(o, op):
+    return {"unit": lambda: o.unit, "inv": lambda: ~o, "neg": lambda: -o, "conj": lambda: o.conj}[op]()
+
+
+def elementwise_check(ctx, c, outs):
+    """op(obj)[i] == op(obj[i]) for every element (each element keeps ITS OWN data: no decision taken for the whole object
+    at once may change what happens to one element), and `unit` really divides every element by its own norm"""
+    obj = nomut_build(c)
+    op = c["op"]
+    raw = np.array(c["data"], dtype=float).reshape(tuple(c["shape"]) + (-1,))
+    with warnings.catch_warnings(), np.errstate(all="ignore"):
+        warnings.simplefilter("ignore")
+        whole = _apply_unary(obj, op)
+        if tuple(whole.shape) != tuple(obj.shape):
+            return f"{c['cls']}.{op}: shape {tuple(whole.shape)} for an object of shape {tuple(obj.shape)}"
+        for ix in np.ndindex(*obj.shape):
+            one = _apply_unary(obj[ix], op)
+            a, b = np.asarray(whole.data[ix], float).reshape(-1), np.asarray(one.data, float).reshape(-1)
+            scale = max(float(np.abs(b).max()), 1e-300)
+            if not np.abs(a - b).max() <= 4e-16 * scale:
+                return (f"{c['cls']}.{op}: element {list(ix)} of the result on the whole object is {a.tolist()} but the operation on "
+                        f"that element alone gives {b.tolist()} (element data {np.asarray(obj.data[ix]).tolist()}, "
+                        f"norms of the object {np.asarray(obj.norm).reshape(-1).tolist()})")
+            if c["cls"] in ROT and bool(np.asarray(whole.improper)[ix]) != bool(np.asarray(one.improper).reshape(-1)[0]):
+                return f"{c['cls']}.{op}: improper flag of element {list(ix)} differs between whole-object and single-element result"
+        if op == "unit":
+            d = np.asarray(obj.data, float)
+            nrm = np.sqrt(np.sum(d * d, axis=-1))
+            ok = nrm > 0
+            got = np.sqrt(np.sum(np.asarray(whole.data, float) ** 2, axis=-1))
+            if ok.any() and not np.abs(got[ok] - 1).max() <= 4e-16:
+                return (f"{c['cls']}.unit: norms of the result are {got.reshape(-1).tolist()} (norms of the operand "
+                        f"{nrm.reshape(-1).tolist()})")
+    return None
+
+
+def elementwise_data(rng, n, dim, family):
+    """rows whose norms are (family 'near1') all within 1e-9 … 1e-5 of 1, ('mixed') near 1 and far from 1, ('const') all near
+    another common value, ("tiny") down to 1e-140"""
+    rows = []
+    for j in range(n):
+        v = rng.normal(size=dim)
+        v /= np.sqrt(np.sum(v * v))
+        d = float(rng.choice([1e-9, 1e-8, 1e-7, 1e-6, 3e-6, 9e-6])) * float(rng.choice([-1, 1]))
+        if family == "near1":
+            s = 1 + d
+        elif family == "mixed":
+            s = [1 + d, float(rng.choice([0.5, 3.0, 1e-3, 250.0])), 1.0][j % 3]
+        elif family == "const":
+            s = 7.25 * (1 + d)
+        else:
+            s = float(rng.choice([1e-140, 1e-30, 1e-8, 1.0, 1e30]))   # squares stay normal numbers
+        rows.append([float(x) for x in v * s])
+    return rows
+
+
 PREDICATES = {}  # no open finding for C16 (Miller negation / squeeze were repaired in /repo by 23f0eb7)
 
 SITES = {
     "prog_model": sites.Site("prog_model", "corr", prog_model_check, prog_model_lines),
     "prog_index": sites.Site("prog_index", "prop", prog_index_check),
     "nomut": sites.Site("nomut", "prop", nomut_check),
+    "elementwise": sites.Site("elementwise", "prop", elementwise_check),
 }
 
 
@@ -891,6 +954,20 @@ def generate(ctx):
             ctx.count(f"edge/{cls}", prog_key(c2), nontrivial=n0 > 0)
             yield "prog_model", c2
             yield "prog_index", c2
+    # whole object vs element by element (norms all near 1 / mixed / near another constant / tiny)
+    for cls in CLASSES:
+        dim = 4 if cls in QUAT else 3
+        for fam in ("near1", "mixed", "const", "tiny"):
+            for rep in range(1 if quick else 6):
+                shape = [[3], [2, 2], [1], [2, 1, 2]][(rep + CLASSES.index(cls) + len(fam)) % 4]
+                n0 = int(np.prod(shape))
+                data = elementwise_data(rng, n0, dim, fam)
+                meta = rand_meta(rng, cls)
+                flags = [bool(rng.integers(2)) for _ in range(n0)] if cls in ROT else []
+                for op in ELEMENTWISE_OPS[cls]:
+                    c = {"cls": cls, "shape": shape, "data": data, "flags": flags, "meta": meta, "op": op}
+                    ctx.count(f"elementwise/{cls}/{fam}", ("ew", cls, op, data, flags))
+                    yield "elementwise", c
     # no-mutation clause
     reps = 2 if quick else 8
     for cls in CLASSES:
